@@ -53,7 +53,7 @@ static void print_violations(uint64_t idx, const RunCtx& cx) {
     for (auto& v : cx.viol) {
         std::string tags;
         for (auto& t : cx.tags) { if (!tags.empty()) tags += ","; tags += t; }
-        printf("V %llu %llu %s %s\t%s\t%s\n", (unsigned long long)idx, (unsigned long long)cx.seed, v.prop.c_str(), v.sig.c_str(), tags.c_str(),
+        printf("V %llu %llu:%u %s %s\t%s\t%s\n", (unsigned long long)idx, (unsigned long long)cx.seed, cx.slot, v.prop.c_str(), v.sig.c_str(), tags.c_str(),
                json_escape(v.detail).c_str());
     }
 }
@@ -83,6 +83,7 @@ int main(int argc, char** argv) {
             uint64_t stride = a.count("stride") ? strtoull(a["stride"].c_str(), nullptr, 10) : 1, offset = strtoull(a["offset"].c_str(), nullptr, 10);
             bool hashes = a.count("hashes");
             uint64_t pbase = mix_str(mix_str(base, a["prop"].c_str()), a["engine"].c_str());
+            unsigned slots = a.count("slots") ? (unsigned)strtoul(a["slots"].c_str(), nullptr, 10) : 1;
             std::set<uint64_t> distinct_hashes;
             std::set<std::string> distinct_states;
             uint64_t events = 0, runs = 0, samples = 0;
@@ -91,11 +92,13 @@ int main(int argc, char** argv) {
                 RunCtx cx;
                 cx.prop = a["prop"];
                 cx.tier = a["tier"];
-                cx.seed = mix64(pbase, i);
+                cx.seed = mix64(pbase, i / slots);   // runs i*slots .. i*slots+slots-1 share one scenario
+                cx.slot = (unsigned)(i % slots);
+                cx.slots = slots;
                 cx.ctr = &ctr;
                 cx.describe = samples < 2;
                 cx.log.reset(false);
-                printf("B %llu %llu\n", (unsigned long long)i, (unsigned long long)cx.seed);
+                printf("B %llu %llu %u\n", (unsigned long long)i, (unsigned long long)cx.seed, cx.slot);
                 eng->fn(cx);
                 runs++;
                 events += cx.log.count;
@@ -127,6 +130,8 @@ int main(int argc, char** argv) {
             cx.prop = a["prop"];
             cx.tier = a["tier"];
             cx.seed = strtoull(a["seed"].c_str(), nullptr, 10);
+            cx.slot = a.count("slot") ? (unsigned)strtoul(a["slot"].c_str(), nullptr, 10) : 0;
+            cx.slots = a.count("slots") ? (unsigned)strtoul(a["slots"].c_str(), nullptr, 10) : 1;
             cx.ctr = &ctr;
             cx.describe = a.count("describe");
             if (a.count("keep")) {
@@ -148,7 +153,7 @@ int main(int argc, char** argv) {
             uint64_t h1 = cx.log.hash;
             if (a.count("twice")) {
                 RunCtx c2;
-                c2.prop = cx.prop; c2.tier = cx.tier; c2.seed = cx.seed; c2.ctr = &ctr; c2.has_keep = cx.has_keep; c2.keep = cx.keep;
+                c2.prop = cx.prop; c2.tier = cx.tier; c2.seed = cx.seed; c2.slot = cx.slot; c2.slots = cx.slots; c2.ctr = &ctr; c2.has_keep = cx.has_keep; c2.keep = cx.keep;
                 c2.log.reset(false);
                 eng->fn(c2);
                 if (c2.log.hash != h1) { printf("NONDETERMINISTIC %016llx %016llx\n", (unsigned long long)h1, (unsigned long long)c2.log.hash); return 3; }
